@@ -150,7 +150,7 @@ def run(ck):
               "layouts are contiguous (offsets back to back) in the correspondence stream; sparse layouts go through C12/C16",
               "alternative widths (alt_widths) are exercised by the oracle stream only, not by the model")
 
-    n_layouts = ck.budget(250, 6000)
+    n_layouts = ck.budget(1200, 12000)
     n_ops = ck.budget(25, 40)
     s = ck.stream("op_sequences", f"{n_layouts} random layouts (1-4 registers of 8..512 bits; bit-fields at arbitrary offsets/widths incl. full width, "
                   f"gaps, enums, SHIFT_RIGHT processors; grouped registers with 2-8 sub-registers, normal and reversed order; reversed byte order) x {n_ops} random ops "
